@@ -258,7 +258,9 @@ pub fn base_case() -> Case {
 /// the independent dimensions; each function turns the base case into one variant
 pub fn mutations() -> Vec<(&'static str, Vec<fn(&mut Case)>)> {
   vec![
-    ("nonce", vec![|c| { c.nonce = Some(1); c.o_nonce = Some(1); }, |c| { c.nonce = Some(1); c.o_nonce = Some(2); }, |c| c.nonce = Some(1), |c| c.o_nonce = Some(1)]),
+    ("nonce", vec![|c| { c.nonce = Some(1); c.o_nonce = Some(1); }, |c| { c.nonce = Some(1); c.o_nonce = Some(2); }, |c| c.nonce = Some(1), |c| c.o_nonce = Some(1),
+      // "n1" is a proper prefix of "n10" and of "n12": a nonce must be compared as a whole
+      |c| { c.nonce = Some(1); c.o_nonce = Some(10); }, |c| { c.nonce = Some(12); c.o_nonce = Some(1); }]),
     ("kid", vec![|c| c.kid = (0, U { d: 0, r: 0, f: -1 }), |c| c.kid = (1, U { d: 0, r: 0, f: -1 }), |c| c.kid.1.f = 5, |c| c.kid.1 = U { d: 2, r: 0, f: 0 }, |c| { c.kid.1.f = 1; c.sigkey = 11; }, |c| c.kid.1.f = 2, |c| { c.kid.1.f = 3; c.sigkey = 13; },
       |c| { c.kid.1 = U { d: 2, r: 0, f: 4 }; c.sigkey = 14; }, |c| c.kid.1.f = 6, |c| c.kid.1.r = 1, |c| c.kid.1.f = -1,
       |c| { c.kid.1.f = 11; c.sigkey = 17; }, |c| { c.kid.1.f = 12; c.sigkey = 18; }]),
